@@ -25,7 +25,7 @@ pub fn meta() -> PropMeta {
         id: "C16",
         level: "exploration",
         rule: "a real sender and a real receiver (client<->listener, either direction) exchange 1..12 generated messages (body sizes 0..20 KiB around frame multiples, so one and many transfer frames; link-layer split by max-message-size in some cases) over one link with generated settle modes, auto-accept on/off, credit Auto(1..50), frame size 512..4096 and engine buffer capacities. Every send and every recv future is polled at most k times and dropped when its k-th poll is Pending; k is generated per attempt (0..40 or unlimited), repeated as in a select! loop. A final sentinel message is sent with unlimited polls. Oracle: the deliveries returned by completed recv calls are intact (byte-equal body), strictly in send order, contain every message whose send completed, contain a cancelled message at most once, and end with the sentinel; with no send cancelled they are exactly the messages sent; no recv/send returns an error; unlimited sends complete (no credit starvation: a wedge is the virtual-time watchdog); nothing arrives after the sentinel; completed unsettled sends resolve Accepted. Non-trivial: at least one future was actually dropped while Pending (k >= 1) — distinct by hash of the case.",
-        assumptions: &["engine buffers >= 32 and a wide pipe while KF-engine-channel-deadlock / KF-engine-backpressure-deadlock are open", "cancellation is modelled as drop-after-k-polls of the public futures (the only thing an application can do)"],
+        assumptions: &["while KF-engine-channel-deadlock / KF-engine-backpressure-deadlock are open: wide pipe, connection buffers, the sender side's session buffer and the link buffers >= 32; the receiving side's link->session capacity stays as generated (from 1) with session windows >= 100", "cancellation is modelled as drop-after-k-polls of the public futures (the only thing an application can do)"],
         nontrivial_floor: 0.4,
         run,
         replay,
@@ -313,10 +313,30 @@ fn carve(c: &Case, open: &[String], excluded: &mut Vec<String>) -> Case {
     let mut c = c.clone();
     if open.iter().any(|o| o == "KF-engine-channel-deadlock") {
         let mut hit = false;
-        for b in c.duo.conn_buf.iter_mut().chain(c.duo.sess_buf.iter_mut()) {
+        // the receiving side's link->session channel keeps its generated capacity (1, 2, 8, 2048) so that
+        // the receiver's internal sends (flow, disposition) can be pending when its future is dropped;
+        // with auto-accept that loses deliveries (KF-recv-cancel-auto-accept-loss), so there it is widened
+        let auto_loss_open = open.iter().any(|o| o == "KF-recv-cancel-auto-accept-loss");
+        let keep_rcv = !(c.link.auto_accept && auto_loss_open);
+        let rcv_side = if c.link.dir == 0 { 1 } else { 0 };
+        if !keep_rcv && c.duo.sess_buf[rcv_side] < 32 {
+            excluded.push("KF-recv-cancel-auto-accept-loss".into());
+        }
+        for (i, b) in c.duo.conn_buf.iter_mut().enumerate().chain(c.duo.sess_buf.iter_mut().enumerate().map(|(i, b)| (i + 10, b))) {
+            if keep_rcv && i == 10 + rcv_side {
+                continue;
+            }
             if *b < 32 {
                 *b = 32;
                 hit = true;
+            }
+        }
+        if keep_rcv {
+            // a session that answers every frame with a flow of its own is the other half of the deadlock shape
+            for w in c.duo.incoming_window.iter_mut().chain(c.duo.outgoing_window.iter_mut()) {
+                if *w < 100 {
+                    *w = 100;
+                }
             }
         }
         if c.link.link_buf < 32 {
@@ -361,7 +381,8 @@ fn case(ctx: &ShardCtx, c: &Case, obs: &mut Obs) -> Result<(), String> {
             Ok(())
         }
         Ok(Err(e)) => {
-            obs.signature = Some(if e.starts_with("HANG") { "hang".into() } else if e.contains("recv failed") { format!("recv-error:{}", e.rsplit(": ").next().unwrap_or("").split(|c: char| !c.is_alphanumeric()).next().unwrap_or("")) } else if e.contains("send") && e.contains("failed") { "send-error".into() } else { "delivery".into() });
+            let rcv_side = if c.link.dir == 0 { 1 } else { 0 };
+            obs.signature = Some(if e.starts_with("HANG") { if c.link.auto_accept && c.duo.sess_buf[rcv_side] < 32 { "hang:auto-accept-small-rcv-buffer".into() } else { "hang".into() } } else if e.contains("recv failed") { format!("recv-error:{}", e.rsplit(": ").next().unwrap_or("").split(|c: char| !c.is_alphanumeric()).next().unwrap_or("")) } else if e.contains("send") && e.contains("failed") { "send-error".into() } else { "delivery".into() });
             Err(e)
         }
         Err(p) => {
